@@ -187,6 +187,440 @@ theorem store_rows_published (log : List Version) (h : Ordered log) (st : Store)
   obtain ⟨v, hv, p, hp, rfl⟩ := this
   exact ⟨v, hv, rfl, hp⟩
 
+
+/-! ### the clauses as they are written (review r5): first value published, re-merging a stored version -/
+
+/-- the publications visible as of `T` (`none`: all of them) -/
+def pubs (log : List Version) (asof : Option Int) : Store := (logRows log).filter (vis asof)
+
+theorem specFirstLiteral_eq (log : List Version) (asof : Option Int) :
+    specFirstLiteral log asof = (dates (pubs log asof)).map fun d => (d, (group d (pubs log asof)).head?.bind (·.val)) := by
+  cases asof with
+  | none => simp only [specFirstLiteral, pubs, filter_vis_none]
+  | some T => rfl
+
+theorem specFirst_eq_pubs (log : List Version) (asof : Option Int) :
+    specFirst log asof = (dates (pubs log asof)).map fun d => (d, firstVal (group d (pubs log asof))) := by
+  cases asof with
+  | none => simp only [specFirst, pubs, filter_vis_none]
+  | some T => rfl
+
+/-- **first read, exact**: `bi_read(what=0)` is the first value published per date (the clause as written) exactly when, for
+    every date, the publications sharing the date's first stamp fold to the first of them. -/
+theorem read_first_literal_iff (log : List Version) (h : Ordered log) (T : Option Int) :
+    ∃ st, history log = some st ∧
+      (biRead st T 0 = specFirstLiteral log T ↔
+        ∀ d ∈ dates (pubs log T), firstVal (group d (pubs log T)) = (group d (pubs log T)).head?.bind (·.val)) := by
+  obtain ⟨st, hst, hr⟩ := read_first log h T
+  refine ⟨st, hst, ?_⟩
+  rw [hr, specFirst_eq_pubs, specFirstLiteral_eq, List.map_inj_left]
+  constructor
+  · intro hh d hd; exact (Prod.mk.inj (hh d hd)).2
+  · intro hh d hd; rw [hh d hd]
+
+/-- **first read, literal**: if no date has two publications (visible as of `T`) with the same stamp - in particular if all
+    stamps of the history are distinct - `bi_read(what=0)` returns the first value published per date. -/
+theorem read_first_literal (log : List Version) (h : Ordered log) (T : Option Int)
+    (hd : ∀ d, ((group d (pubs log T)).map (·.stamp)).Nodup) :
+    ∃ st, history log = some st ∧ biRead st T 0 = specFirstLiteral log T := by
+  obtain ⟨st, hst, hiff⟩ := read_first_literal_iff log h T
+  refine ⟨st, hst, hiff.2 ?_⟩
+  intro d _
+  have := hd d
+  match hg : group d (pubs log T), this with
+  | [], _ => rfl
+  | r :: rest, hn =>
+    have hf : (r :: rest).filter (·.stamp == r.stamp) = [r] := by
+      simp only [List.filter_cons, beq_self_eq_true, if_true, List.cons.injEq, true_and]
+      rw [List.filter_eq_nil_iff]
+      intro x hx
+      simp only [List.map_cons, List.nodup_cons, List.mem_map, not_exists, not_and] at hn
+      have := hn.1 x hx
+      simp only [beq_iff_eq]; exact this
+    simp [firstVal, hf, lastVal]
+
+/-- it is enough that the stamps of the versions are pairwise distinct -/
+theorem read_first_literal_distinct (log : List Version) (h : Ordered log) (T : Option Int)
+    (hs : log.Pairwise (fun a b => a.stamp ≠ b.stamp)) :
+    ∃ st, history log = some st ∧ biRead st T 0 = specFirstLiteral log T := by
+  apply read_first_literal log h T
+  intro d
+  have hsub : (group d (pubs log T)).Sublist (group d (logRows log)) :=
+    List.Sublist.filter _ List.filter_sublist
+  refine List.Nodup.sublist (hsub.map _) ?_
+  -- per date, each version contributes at most one row
+  have hg := fun v (hv : v ∈ log) => (good_Bi v.ts v.stamp (h.wf v hv) d).1
+  clear hsub
+  induction log with
+  | nil => simp [logRows, group]
+  | cons v rest ih =>
+    have e : logRows (v :: rest) = Bi v.ts v.stamp ++ logRows rest := by simp [logRows]
+    rw [e, group_append, List.map_append]
+    have hrest : Ordered rest ∨ rest = [] := by
+      by_cases hr : rest = []
+      · exact Or.inr hr
+      · exact Or.inl ⟨hr, fun w hw => h.wf w (by simp [hw]), (List.pairwise_cons.mp h.stamps).2⟩
+    have hv1 : ∀ r ∈ group d (Bi v.ts v.stamp), r.stamp = v.stamp := by
+      intro r hr
+      have := (mem_group.mp hr).1
+      simp only [Bi, List.mem_map] at this
+      obtain ⟨_, _, rfl⟩ := this; rfl
+    have h1 : ((group d (Bi v.ts v.stamp)).map (·.stamp)).Nodup := by
+      have := hg v (by simp)
+      exact (List.Pairwise.map _ (fun a b (hab : a.stamp < b.stamp) => (by omega : a.stamp ≠ b.stamp)) this)
+    have h2 : ((group d (logRows rest)).map (·.stamp)).Nodup := by
+      rcases hrest with hr | hr
+      · exact ih hr (List.pairwise_cons.mp hs).2 (fun w hw => hg w (by simp [hw]))
+      · subst hr; simp [logRows, group]
+    refine List.nodup_append.mpr ⟨h1, h2, ?_⟩
+    intro a ha b hb
+    simp only [List.mem_map] at ha hb
+    obtain ⟨ra, hra, rfl⟩ := ha
+    obtain ⟨rb, hrb, rfl⟩ := hb
+    rw [hv1 ra hra]
+    have := (mem_group.mp hrb).1
+    simp only [logRows, List.mem_flatMap, Bi, List.mem_map] at this
+    obtain ⟨w, hw, _, _, rfl⟩ := this
+    exact (List.pairwise_cons.mp hs).1 w hw
+
+/-- two versions with one stamp: `5` then `6` for the same date -/
+def sameStamp : List Version := [⟨10, [(1, some 5)]⟩, ⟨10, [(1, some 6)]⟩]
+
+theorem sameStamp_ordered : Ordered sameStamp := ⟨by simp [sameStamp], by decide, by decide⟩
+
+/-- **known finding C17-K1 (witness)**: the clause "what=0 returns the first value published per date" is false of the model (and
+    of the code, `law-read-first-literal`) when a second version shares the first stamp: `5@10` then `6@10` is read as `6`. -/
+theorem read_first_literal_fails :
+    ∃ log, Ordered log ∧ ∃ st, history log = some st ∧ biRead st Option.none 0 ≠ specFirstLiteral log Option.none ∧
+      (1, some 6) ∈ biRead st Option.none 0 ∧ (1, some 5) ∈ specFirstLiteral log Option.none := by
+  obtain ⟨st, hst, hr⟩ := read_first sameStamp sameStamp_ordered Option.none
+  have hp : pubs sameStamp Option.none = [⟨1, 10, some 5⟩, ⟨1, 10, some 6⟩] := by
+    simp [pubs, sameStamp, logRows, Bi, filter_vis_none]
+  have hd : (1 : Int) ∈ dates (pubs sameStamp Option.none) := by
+    rw [hp, mem_dates]; exact ⟨⟨1, 10, some 5⟩, by simp, rfl⟩
+  have h6 : (1, some 6) ∈ biRead st Option.none 0 := by
+    rw [hr, specFirst_eq_pubs, List.mem_map]
+    exact ⟨1, hd, by rw [hp]; decide⟩
+  have h5 : (1, some 5) ∈ specFirstLiteral sameStamp Option.none := by
+    rw [specFirstLiteral_eq, List.mem_map]
+    exact ⟨1, hd, by rw [hp]; decide⟩
+  refine ⟨sameStamp, sameStamp_ordered, st, hst, ?_, h6, h5⟩
+  intro he
+  rw [he, specFirstLiteral_eq, List.mem_map] at h6
+  obtain ⟨d, _, hd6⟩ := h6
+  rw [hp] at hd6
+  have hd1 : d = 1 := (Prod.mk.inj hd6).1
+  subst hd1
+  revert hd6; decide
+
+/-- in a column strictly increasing in stamp, the rows stamped no later than a member `r` end with `r` -/
+theorem filter_le_of_mem (c : Store) (hs : SortedLt c) (r : Row) (hr : r ∈ c) :
+    ∃ A, c.filter (fun q => decide (q.stamp ≤ r.stamp)) = A ++ [r] := by
+  obtain ⟨A, B, rfl⟩ := List.append_of_mem hr
+  refine ⟨A, ?_⟩
+  obtain ⟨_, hB, hAB⟩ := List.pairwise_append.mp hs
+  have hA' : A.filter (fun q => decide (q.stamp ≤ r.stamp)) = A := by
+    rw [List.filter_eq_self]; intro a ha
+    have := hAB a ha r (by simp)
+    simp only [decide_eq_true_eq]; omega
+  have hB' : B.filter (fun q => decide (q.stamp ≤ r.stamp)) = [] := by
+    rw [List.filter_eq_nil_iff]; intro b hb
+    have := List.rel_of_pairwise_cons hB hb
+    simp only [decide_eq_true_eq]; omega
+  simp [List.filter_append, hA', hB']
+
+/-- a version whose rows are rows of the store shows, as of its stamp, exactly its own values -/
+theorem rows_in_store_visible (st : Store) (hg : Good st) (w : Version)
+    (hin : ∀ p ∈ w.ts, (⟨p.1, w.stamp, p.2⟩ : Row) ∈ st) :
+    ∀ p ∈ w.ts, ∃ y, (p.1, y) ∈ biRead st (some w.stamp) (-1) ∧ (p.2 = Option.none ∨ p.2 = y) := by
+  intro p hp
+  have hr := hin p hp
+  have hgr : (⟨p.1, w.stamp, p.2⟩ : Row) ∈ group p.1 st := mem_group.mpr ⟨hr, rfl⟩
+  obtain ⟨A, hA⟩ := filter_le_of_mem _ (hg p.1).1 _ hgr
+  refine ⟨lastVal ((group p.1 st).filter (vis (some w.stamp))), ?_, ?_⟩
+  · rw [biRead_last st hg]
+    simp only [specRows, List.mem_map, Prod.mk.injEq]
+    refine ⟨p.1, ?_, rfl, rfl⟩
+    rw [mem_dates]
+    exact ⟨⟨p.1, w.stamp, p.2⟩, List.mem_filter.mpr ⟨hr, by simp [vis]⟩, rfl⟩
+  · have : (group p.1 st).filter (vis (some w.stamp)) = A ++ [⟨p.1, w.stamp, p.2⟩] := hA
+    rw [this, lastVal_snoc]
+    cases hv : p.2 with
+    | none => exact Or.inl rfl
+    | some x => right; simp
+
+/-- **idempotence, as written**: merging a version that is already in the store - every row of it (date, stamp, value) is a
+    row of the store - leaves every as-of read and every first read unchanged. -/
+theorem merge_idem_rows (log : List Version) (h : Ordered log) (st : Store) (hst : history log = some st) (w : Version)
+    (hin : ∀ p ∈ w.ts, (⟨p.1, w.stamp, p.2⟩ : Row) ∈ st) (T : Option Int) :
+    biRead (biMerge (some st) (Bi w.ts w.stamp)) T (-1) = biRead st T (-1) ∧
+    biRead (biMerge (some st) (Bi w.ts w.stamp)) T 0 = biRead st T 0 := by
+  obtain ⟨st', hst', hg, _, _⟩ := history_inv log h.ne h.wf h.stamps
+  rw [hst] at hst'; cases hst'
+  exact merge_idem log h st hst w (rows_in_store_visible st hg w hin) T
+
+/-- a version merged earlier whose rows a same-stamp successor has replaced is NOT "in the store": merging it again makes it the
+    version merged last among those sharing its stamp, and the first clause of the property ("of several sharing a stamp the one
+    merged last") then demands the read to change.  Witness: `5@10`, `6@10`, again `5@10` - the log fold and the store both read
+    `5`, before the re-merge both read `6`.  So "already in the store" cannot mean "merged before". -/
+theorem remerge_overridden_changes_read :
+    ∃ log w, Ordered log ∧ w ∈ log ∧ Ordered (log ++ [w]) ∧ ∃ st, history log = some st ∧
+      ¬ (∀ p ∈ w.ts, (⟨p.1, w.stamp, p.2⟩ : Row) ∈ st) ∧
+      specRead (log ++ [w]) (some w.stamp) ≠ specRead log (some w.stamp) ∧
+      biRead (biMerge (some st) (Bi w.ts w.stamp)) (some w.stamp) (-1) ≠ biRead st (some w.stamp) (-1) := by
+  have ho : Ordered (sameStamp ++ [⟨10, [(1, some 5)]⟩]) := ⟨by simp [sameStamp], by decide, by decide⟩
+  obtain ⟨st, hst, hr⟩ := read_spec sameStamp sameStamp_ordered (some 10)
+  obtain ⟨st', hst', hr'⟩ := read_spec _ ho (some 10)
+  have hst'' : st' = biMerge (some st) (Bi [(1, some 5)] 10) := by
+    have : history (sameStamp ++ [⟨10, [(1, some 5)]⟩]) = some (biMerge (history sameStamp) (Bi [(1, some 5)] 10)) := by
+      simp [history, List.foldl_append]
+    rw [hst] at this; rw [this] at hst'; exact (Option.some.inj hst').symm
+  have hp : (logRows sameStamp).filter (fun r => decide (r.stamp ≤ 10)) = [⟨1, 10, some 5⟩, ⟨1, 10, some 6⟩] := by
+    simp [sameStamp, logRows, Bi]
+  have hp' : (logRows (sameStamp ++ [⟨10, [(1, some 5)]⟩])).filter (fun r => decide (r.stamp ≤ 10)) =
+      [⟨1, 10, some 5⟩, ⟨1, 10, some 6⟩, ⟨1, 10, some 5⟩] := by
+    simp [sameStamp, logRows, Bi]
+  have h5 : (1, some 5) ∈ specRead (sameStamp ++ [⟨10, [(1, some 5)]⟩]) (some 10) := by
+    simp only [specRead, hp', List.mem_map]
+    exact ⟨1, mem_dates.mpr ⟨⟨1, 10, some 5⟩, by simp, rfl⟩, by decide⟩
+  have h5' : (1, some 5) ∉ specRead sameStamp (some 10) := by
+    simp only [specRead, hp, List.mem_map, not_exists, not_and]
+    intro d _ hd
+    have hd1 : d = 1 := (Prod.mk.inj hd).1
+    subst hd1
+    revert hd; decide
+  have hne : specRead (sameStamp ++ [⟨10, [(1, some 5)]⟩]) (some 10) ≠ specRead sameStamp (some 10) := by
+    intro he; rw [he] at h5; exact h5' h5
+  refine ⟨sameStamp, ⟨10, [(1, some 5)]⟩, sameStamp_ordered, by simp [sameStamp], ho, st, hst, ?_, hne, ?_⟩
+  · intro hall
+    -- a store holding the row (1, 10, 5) would show 5 as of 10 (`rows_in_store_visible`), but it shows 6
+    obtain ⟨st2, hst2, hg, _, _⟩ := history_inv sameStamp sameStamp_ordered.ne sameStamp_ordered.wf sameStamp_ordered.stamps
+    rw [hst] at hst2; cases hst2
+    obtain ⟨y, hy, hy'⟩ := rows_in_store_visible st hg ⟨10, [(1, some 5)]⟩ hall (1, some 5) (by simp)
+    rcases hy' with hy' | hy'
+    · cases hy'
+    · rw [← hy', hr] at hy; exact h5' hy
+  · rw [← hst'', hr', hr]; exact hne
+
+/-! ### what an as-of read returns, said without the fold (review r5): the value of the version merged last among those stamped
+    `≤ T` that publish a non-NaN value for the date -/
+
+theorem foldl_or_eq (B : Store) (a : Option Int) : B.foldl (fun acc r => r.val.or acc) a = (lastVal B).or a := by
+  induction B generalizing a with
+  | nil => simp [lastVal]
+  | cons r B ih =>
+    simp only [List.foldl_cons, lastVal]
+    rw [ih, ih (r.val.or Option.none), Option.or_none, Option.or_assoc]
+
+theorem lastVal_append (A B : Store) : lastVal (A ++ B) = (lastVal B).or (lastVal A) := by
+  simp only [lastVal, List.foldl_append]; exact foldl_or_eq B _
+
+theorem lastVal_cons (r : Row) (B : Store) : lastVal (r :: B) = (lastVal B).or r.val := by
+  have := lastVal_append [r] B
+  simpa [lastVal] using this
+
+theorem lastVal_eq_none_iff (rows : Store) : lastVal rows = Option.none ↔ ∀ r ∈ rows, r.val = Option.none := by
+  induction rows with
+  | nil => simp [lastVal]
+  | cons r rows ih =>
+    rw [lastVal_cons, Option.or_eq_none_iff, ih]
+    simp [and_comm]
+
+theorem lastVal_some_mem {rows : Store} {x : Int} (h : lastVal rows = some x) : ∃ r ∈ rows, r.val = some x := by
+  induction rows with
+  | nil => simp [lastVal] at h
+  | cons r rows ih =>
+    rw [lastVal_cons] at h
+    cases hv : lastVal rows with
+    | some y =>
+      rw [hv] at h; simp at h; subst h
+      obtain ⟨q, hq, hqv⟩ := ih hv
+      exact ⟨q, by simp [hq], hqv⟩
+    | none =>
+      rw [hv] at h; simp at h
+      exact ⟨r, by simp, h⟩
+
+/-- a proper series has one row per date -/
+theorem group_Bi_single (ts : TS) (s : Int) (hs : ts.Sorted) (p : Int × Option Int) (hp : p ∈ ts) :
+    group p.1 (Bi ts s) = [⟨p.1, s, p.2⟩] := by
+  have hgd := (good_Bi ts s hs p.1).1
+  have hm : (⟨p.1, s, p.2⟩ : Row) ∈ group p.1 (Bi ts s) :=
+    mem_group.mpr ⟨by simp only [Bi, List.mem_map]; exact ⟨p, hp, rfl⟩, rfl⟩
+  match hgrp : group p.1 (Bi ts s), hgd, hm with
+  | [], _, hm => simp at hm
+  | [a], _, hm => simp only [List.mem_singleton] at hm; rw [hm]
+  | a :: b :: rest, hgd, _ =>
+    exfalso
+    have hab := List.rel_of_pairwise_cons hgd (List.mem_cons_self (a := b) (l := rest))
+    have ha : a ∈ group p.1 (Bi ts s) := by rw [hgrp]; simp
+    have hb : b ∈ group p.1 (Bi ts s) := by rw [hgrp]; simp
+    have e1 : a.stamp = s := by
+      have := (mem_group.mp ha).1; simp only [Bi, List.mem_map] at this; obtain ⟨_, _, rfl⟩ := this; rfl
+    have e2 : b.stamp = s := by
+      have := (mem_group.mp hb).1; simp only [Bi, List.mem_map] at this; obtain ⟨_, _, rfl⟩ := this; rfl
+    omega
+
+/-- the rows of date `d` that the versions of `log` stamped `≤ T` publish, in merge order -/
+def col (d T : Int) (log : List Version) : Store := group d ((logRows log).filter (vis (some T)))
+
+theorem col_cons (d T : Int) (v : Version) (rest : List Version) :
+    col d T (v :: rest) = (if v.stamp ≤ T then group d (Bi v.ts v.stamp) else []) ++ col d T rest := by
+  have e : logRows (v :: rest) = Bi v.ts v.stamp ++ logRows rest := by simp [logRows]
+  unfold col
+  rw [e, List.filter_append, group_append]
+  congr 1
+  split
+  · rename_i hle
+    congr 1
+    rw [List.filter_eq_self]
+    intro r hr
+    simp only [Bi, List.mem_map] at hr
+    obtain ⟨_, _, rfl⟩ := hr
+    simp [vis, hle]
+  · rename_i hle
+    have : (Bi v.ts v.stamp).filter (vis (some T)) = [] := by
+      rw [List.filter_eq_nil_iff]
+      intro r hr
+      simp only [Bi, List.mem_map] at hr
+      obtain ⟨_, _, rfl⟩ := hr
+      simp [vis, hle]
+    rw [this]; rfl
+
+theorem mem_col {d T : Int} {log : List Version} {r : Row} :
+    r ∈ col d T log ↔ ∃ v ∈ log, v.stamp ≤ T ∧ r.stamp = v.stamp ∧ r.date = d ∧ (d, r.val) ∈ v.ts := by
+  simp only [col, mem_group, List.mem_filter, logRows, List.mem_flatMap, Bi, List.mem_map, vis, decide_eq_true_eq]
+  constructor
+  · rintro ⟨⟨⟨v, hv, p, hp, rfl⟩, hT⟩, rfl⟩
+    exact ⟨v, hv, hT, rfl, rfl, hp⟩
+  · rintro ⟨v, hv, hT, hs, hd, hp⟩
+    refine ⟨⟨⟨v, hv, (d, r.val), hp, ?_⟩, by omega⟩, hd⟩
+    cases r; simp_all
+
+/-- the fold of a date's column is `some x` exactly if some version stamped `≤ T` publishes `x` for the date and no version
+    merged after it and stamped `≤ T` publishes a non-NaN value for that date -/
+theorem lastVal_col_some (d T : Int) (x : Int) (log : List Version) (hwf : ∀ v ∈ log, v.ts.Sorted) :
+    lastVal (col d T log) = some x ↔
+      ∃ before v after, log = before ++ v :: after ∧ v.stamp ≤ T ∧ (d, some x) ∈ v.ts ∧
+        ∀ u ∈ after, u.stamp ≤ T → ∀ y, (d, some y) ∉ u.ts := by
+  induction log with
+  | nil => simp [col, logRows, group, lastVal]
+  | cons v rest ih =>
+    have ih := ih (fun u hu => hwf u (by simp [hu]))
+    rw [col_cons, lastVal_append]
+    constructor
+    · intro h
+      cases hR : lastVal (col d T rest) with
+      | some z =>
+        rw [hR] at h; simp at h; subst h
+        obtain ⟨before, u, after, rfl, h1, h2, h3⟩ := ih.mp hR
+        exact ⟨v :: before, u, after, by simp, h1, h2, h3⟩
+      | none =>
+        rw [hR] at h; simp at h
+        obtain ⟨r, hr, hrv⟩ := lastVal_some_mem h
+        split at hr
+        · rename_i hle
+          have h1 := (mem_group.mp hr)
+          have h2 := h1.1
+          simp only [Bi, List.mem_map] at h2
+          obtain ⟨p, hp, rfl⟩ := h2
+          refine ⟨[], v, rest, rfl, hle, ?_, ?_⟩
+          · have : p = (d, some x) := by
+              cases p; simp at h1 hrv; simp [h1.2, hrv]
+            rw [← this]; exact hp
+          · intro u hu huT y hy
+            have := (lastVal_eq_none_iff _).mp hR ⟨d, u.stamp, some y⟩ (mem_col.mpr ⟨u, hu, huT, rfl, rfl, hy⟩)
+            simp at this
+        · simp at hr
+    · rintro ⟨before, u, after, he, h1, h2, h3⟩
+      cases before with
+      | nil =>
+        simp only [List.nil_append, List.cons.injEq] at he
+        obtain ⟨rfl, rfl⟩ := he
+        have hnone : lastVal (col d T rest) = Option.none := by
+          rw [lastVal_eq_none_iff]
+          intro r hr
+          obtain ⟨w, hw, hwT, _, _, hp⟩ := mem_col.mp hr
+          cases hv : r.val with
+          | none => rfl
+          | some y => rw [hv] at hp; exact absurd hp (h3 w hw hwT y)
+        rw [hnone, if_pos h1, group_Bi_single v.ts v.stamp (hwf v (by simp)) (d, some x) h2]
+        simp [lastVal]
+      | cons b before =>
+        simp only [List.cons_append, List.cons.injEq] at he
+        obtain ⟨rfl, rfl⟩ := he
+        rw [ih.mpr ⟨before, u, after, rfl, h1, h2, h3⟩]; simp
+
+/-- **as-of value, declaratively**: the as-of-`T` read shows `x` for date `d` iff some version stamped `≤ T` publishes `x` for
+    `d` and no version merged after it and stamped `≤ T` publishes a non-NaN value for `d` - "the latest value published with
+    stamp `≤ T`, of several sharing a stamp the one merged last, a NaN never overrides", with no fold in the statement. -/
+theorem read_value (log : List Version) (h : Ordered log) (T : Int) (st : Store) (hst : history log = some st)
+    (d x : Int) :
+    (d, some x) ∈ biRead st (some T) (-1) ↔
+      ∃ before v after, log = before ++ v :: after ∧ v.stamp ≤ T ∧ (d, some x) ∈ v.ts ∧
+        ∀ u ∈ after, u.stamp ≤ T → ∀ y, (d, some y) ∉ u.ts := by
+  obtain ⟨st', hst', hr⟩ := read_spec log h (some T)
+  rw [hst] at hst'; cases hst'
+  rw [hr, ← lastVal_col_some d T x log h.wf]
+  simp only [specRead, List.mem_map, Prod.mk.injEq]
+  constructor
+  · rintro ⟨d', _, rfl, hv⟩; exact hv
+  · intro hv
+    refine ⟨d, ?_, rfl, hv⟩
+    obtain ⟨r, hr, _⟩ := lastVal_some_mem hv
+    exact mem_dates.mpr ⟨r, (mem_group.mp hr).1, (mem_group.mp hr).2⟩
+
+/-- the same with positions: version `i` publishes `x`, no version `j > i` stamped `≤ T` publishes a non-NaN value -/
+theorem read_value_idx (log : List Version) (h : Ordered log) (T : Int) (st : Store) (hst : history log = some st)
+    (d x : Int) :
+    (d, some x) ∈ biRead st (some T) (-1) ↔
+      ∃ i, ∃ hi : i < log.length, log[i].stamp ≤ T ∧ (d, some x) ∈ log[i].ts ∧
+        ∀ j, ∀ hj : j < log.length, i < j → log[j].stamp ≤ T → ∀ y, (d, some y) ∉ log[j].ts := by
+  rw [read_value log h T st hst]
+  constructor
+  · rintro ⟨before, v, after, rfl, h1, h2, h3⟩
+    refine ⟨before.length, by simp, by simpa using h1, by simpa using h2, ?_⟩
+    intro j hj hij hjT y
+    have hmem : (before ++ v :: after)[j] ∈ after := by
+      have hd : (before ++ v :: after).drop (before.length + 1) = after := by simp
+      have := List.mem_drop_iff_getElem (l := before ++ v :: after) (i := before.length + 1)
+        (a := (before ++ v :: after)[j]) |>.mpr ⟨j - (before.length + 1), by omega, by congr 1; omega⟩
+      rwa [hd] at this
+    exact h3 _ hmem hjT y
+  · rintro ⟨i, hi, h1, h2, h3⟩
+    refine ⟨log.take i, log[i], log.drop (i + 1), ?_, h1, h2, ?_⟩
+    · rw [List.getElem_cons_drop, List.take_append_drop]
+    · intro u hu huT y
+      obtain ⟨k, hk, rfl⟩ := List.mem_iff_getElem.mp hu
+      simp only [List.length_drop] at hk
+      rw [List.getElem_drop] at huT ⊢
+      exact h3 (i + 1 + k) (by omega) (by omega) huT y
+
+/-- **NaN row, declaratively**: the as-of-`T` read shows NaN for date `d` iff `d` was published by `T` and every publication of
+    `d` stamped `≤ T` is NaN -/
+theorem read_nan (log : List Version) (h : Ordered log) (T : Int) (st : Store) (hst : history log = some st) (d : Int) :
+    (d, Option.none) ∈ biRead st (some T) (-1) ↔
+      (∃ v ∈ log, v.stamp ≤ T ∧ d ∈ v.ts.index) ∧ ∀ v ∈ log, v.stamp ≤ T → ∀ y, (d, some y) ∉ v.ts := by
+  obtain ⟨st', hst', hr⟩ := read_spec log h (some T)
+  rw [hst] at hst'; cases hst'
+  rw [← read_dates log h T st hst d, hr]
+  simp only [specRead, TS.index, List.mem_map, Prod.mk.injEq, List.map_map, Function.comp]
+  have hcol : ∀ d', group d' (List.filter (fun r => decide (r.stamp ≤ T)) (logRows log)) = col d' T log := fun _ => rfl
+  constructor
+  · rintro ⟨d', hd', rfl, hv⟩
+    refine ⟨⟨d', hd', rfl⟩, ?_⟩
+    intro v hv' hvT y hy
+    rw [hcol, lastVal_eq_none_iff] at hv
+    have := hv ⟨d', v.stamp, some y⟩ (mem_col.mpr ⟨v, hv', hvT, rfl, rfl, hy⟩)
+    simp at this
+  · rintro ⟨⟨d', hd', rfl⟩, hall⟩
+    refine ⟨d', hd', rfl, ?_⟩
+    rw [hcol, lastVal_eq_none_iff]
+    intro r hr
+    obtain ⟨w, hw, hwT, _, _, hp⟩ := mem_col.mp hr
+    cases hv : r.val with
+    | none => rfl
+    | some y => rw [hv] at hp; exact absurd hp (hall w hw hwT y)
+
 /-! `lastVal` (the fold used by `specRead`) is determined by three equations: nothing published gives NaN,
     a later non-NaN publication overrides, a later NaN publication changes nothing. -/
 
